@@ -58,6 +58,22 @@ let handle (toks : string list) : string =
      | Prelude.Err e -> "Err:" ^ werr_name e
      | Prelude.Panic -> "Panic"
      | Prelude.OutOfFuel -> "OutOfFuel")
+  | [ "WNS"; parts ] ->
+    (* several question names in one message: later names may point into earlier ones *)
+    let ps = String.split_on_char ',' parts in
+    let body = String.concat "" (List.map (fun h -> (if h = "-" then "" else h) ^ "00010001") ps) in
+    let msg = bytes_of_hex (Printf.sprintf "00000000%04x000000000000" (List.length ps) ^ body) in
+    let total = List.length msg in
+    let rec go k pos acc =
+      if k = 0 then "Ok:" ^ String.concat "," (List.rev acc)
+      else match decode_name_at msg (n_of_int pos) with
+        | Prelude.Ok (n, p) ->
+          if int_of_n p + 4 > total then "Err:QuestionTooShort" else go (k - 1) (int_of_n p + 4) (show_name n :: acc)
+        | Prelude.Err e -> "Err:" ^ werr_name e
+        | Prelude.Panic -> "Panic"
+        | Prelude.OutOfFuel -> "OutOfFuel"
+    in
+    go (List.length ps) 12 []
   | [ "ZG"; apexes; n ] ->
     let zs = List.map (fun a -> let nm = name_of_tok a in (nm, nm)) (String.split_on_char ';' apexes) in
     show_opt show_name (zones_get zs (name_of_tok n))
